@@ -59,16 +59,17 @@ Proof.
 Qed.
 Lemma mvn_ctor mu sinv sdet : vn_new mu sinv sdet = None <-> sdet = 0.
 Proof.
+  clear lgam.
   unfold vn_new. destruct (Reqb sdet 0) eqn:E.
   - apply Reqb_true in E. tauto.
   - split; [discriminate|]. intro H. apply Reqb_t in H. congruence.
 Qed.
 Lemma mvn_dim_guard d x : length x <> length (vn_mu d) -> vn_logpdf d x = ErrDim.
-Proof. intro H. unfold vn_logpdf. apply Nat.eqb_neq in H. rewrite H. reflexivity. Qed.
+Proof. clear lgam. intro H. unfold vn_logpdf. apply Nat.eqb_neq in H. rewrite H. reflexivity. Qed.
 
 (* d = 1: the vector normal with Sigma = [sigma^2] is the scalar normal(mu, sigma) *)
 Lemma qform_1 a x m : qform [[a]] [x] [m] = (x - m) * a * (x - m).
-Proof. unfold qform, vsub, vdotm, dot, column. cbn. ring. Qed.
+Proof. clear lgam. unfold qform, vsub, vdotm, dot, column. cbn. ring. Qed.
 Lemma mvn_scalar_consistency m s x : 0 < s ->
   exists dv ds, vn_new [m] [[/ (s * s)]] (s * s) = Some dv /\ normal_new m s = Some ds /\
     vn_logpdf dv [x] = normal_logpdf ds x.
